@@ -95,6 +95,10 @@ def predicate(prop, op, il, mres, tag):
             if not ok:
                 return ("Relic.Props.C03.pe_payload_preserved", "input bytes outside [dd,dd+8) below origSize unchanged",
                         "payload bytes moved or changed by signing")
+    if f[1] == "digest" and prop == "C01" and len(f) > 4 and f[4].startswith("wf=") and f[4] != "wf=-":
+        # a well-formed package must be accepted (or refused only for a combination the type does not support)
+        if not il.startswith("ok"):
+            return ("Relic.Props.C01 (well-formed PE accepted)", "ok", "well-formed image (%s) refused: %s" % (f[4], il))
     if f[1] == "append" and il == "ok pass":
         return ("Relic.Props.C02.pe_no_trailing", "fail",
                 "content appended after the certificate table (size field enlarged by %s) and the verifier still accepts the file" % f[4])
@@ -117,5 +121,8 @@ def predicate(prop, op, il, mres, tag):
 
 def matches_known(k, op, il, mres, tag):
     ident = k.get("identity", {})
+    f = op.split()
+    if ident.get("pe_wf_prefix") and f[1] == "digest" and len(f) > 4:
+        return f[4].startswith("wf=" + ident["pe_wf_prefix"]) and il == ident.get("observed") and il == mres
     site = ident.get("site", "")
     return il.startswith("panic") and mres.startswith("panic") and site and site in il and site in mres
